@@ -90,6 +90,13 @@ TEXT["C03"] = {
     "design_ref": "DESIGN.md section 3, C03",
 }
 
+TEXT["C10"] = {
+    "technique": "property-based testing (rapid); differential against a reference resolution of the generated hierarchy",
+    "text": "Generated inheritance chains of 1-5 templates in an in-memory loader (different directories, rooted and relative parent names) with random block sets per level (override with Super any number of times and in any position, inherit, add, nest, text outside blocks; base blocks nested in blocks, in live/dead if-branches and in for-loops). Every level is rendered twice and compared with an independent reference resolution (most-derived definition wins; Super = next less-derived definition, empty at the base; levels above the rendered one do not exist); the base is rendered before and after its children were compiled. Ten invalid shapes must fail to compile, directly or through another extends.",
+    "note": "Trusted: the reference resolver c10Ref. Hierarchies in which blocks contain each other are excluded (no defined rendering).",
+    "design_ref": "DESIGN.md section 3, C10",
+}
+
 PENDING_REASON = "check not built yet in this build phase (DESIGN.md section 3 describes the planned PBT check); will be claimed once its quick tier is silent on the unchanged tree and kills its mutants"
 
 
